@@ -18,6 +18,7 @@ import CSD.Lemmas.FM11
 import CSD.Lemmas.RPFC9
 import CSD.Lemmas.FM18
 import CSD.Lemmas.PFCRange
+import CSD.Lemmas.RPFC10
 
 namespace CSD.Props.C04
 open CSD
@@ -191,5 +192,23 @@ theorem pfc_range_models_match_source_text :
     Generated.body_PFCIter_ctor = SourceText.body_PFCIter_ctor ∧
     Generated.body_PFCIter_next = SourceText.body_PFCIter_next ∧
     Generated.body_PFCIter_decodeNext = SourceText.body_PFCIter_decodeNext := ⟨rfl, rfl, rfl, rfl⟩
+
+/-- **RPFC `extractPrefix` is exact** (model of `StringDictionaryRPFC::extractPrefix`: `locatePrefix`, then an
+`IteratorDictStringRPFC` opened at the in-bucket offset of the left limit and drained over `right − left + 1`
+strings, bucket after bucket): over every grammar and symbol streams that store the dictionary, NULL when no
+member starts with the pattern, otherwise exactly the members that start with it, in order; no symbol is read
+past a bucket's stream and every bucket change happens with the stream read to its last symbol. -/
+theorem rpfc_extract_prefix_exact {S : List Str} {d : RPFC.D} (hst : RPFC.Stores S d) (hv : validDict S = true)
+    (q : Str) (hq : PFC.nulFree q) :
+    RPFC.extractPrefix d q = some (if S.filter (isPrefix q) = [] then none else some (S.filter (isPrefix q))) := by
+  obtain ⟨hne, hn, hs, _⟩ := PFC.validDict_facts hv
+  exact RPFC.extractPrefix_stores hst hne hn hs q hq
+
+/-- The RPFC range-scan model was written against the current text of the C++ functions it mirrors. -/
+theorem rpfc_range_models_match_source_text :
+    Generated.body_RPFC_extractPrefix = SourceText.body_RPFC_extractPrefix ∧
+    Generated.body_RPFCIter_ctor = SourceText.body_RPFCIter_ctor ∧
+    Generated.body_RPFCIter_next = SourceText.body_RPFCIter_next ∧
+    Generated.body_RPFCIter_decodeNext = SourceText.body_RPFCIter_decodeNext := ⟨rfl, rfl, rfl, rfl⟩
 
 end CSD.Props.C04
